@@ -313,6 +313,15 @@ func (p *Program) Features() []string {
 		if nm >= 2 {
 			set["match:multi"] = true
 		}
+		ns := 0
+		for _, f := range k.Fields {
+			if f.Kind == KSum {
+				ns++
+			}
+		}
+		if ns >= 2 {
+			set["sum:multi"] = true
+		}
 	}
 	for _, k := range p.Packets {
 		walk(k, false)
